@@ -59,16 +59,13 @@ is stored BEFORE the limit is checked. -/
 def consume (g : Basic) (amount : Int) : Basic × Option GasPanic :=
   if amount < 0 then (g, some .negative)
   else if !(inI64 (g.consumed + amount)) then (g, some .overflow)
-  else
-    let g' : Basic := { g with consumed := g.consumed + amount }
-    if g'.consumed > g.limit then (g', some .oog) else (g', none)
+  else ({ g with consumed := g.consumed + amount },
+        if g.consumed + amount > g.limit then some .oog else none)
 
 /-- `RefundGas`: negative check; the refund is capped at `consumed`. -/
 def refund (g : Basic) (amount : Int) : Basic × Option GasPanic :=
   if amount < 0 then (g, some .negative)
-  else
-    let a := if amount > g.consumed then g.consumed else amount
-    ({ g with consumed := g.consumed - a }, none)
+  else ({ g with consumed := g.consumed - (if amount > g.consumed then g.consumed else amount) }, none)
 
 end Basic
 
@@ -129,9 +126,7 @@ def refund : Meter → Int → Meter × Option GasPanic
   | .basic b, a => ((.basic (b.refund a).1), (b.refund a).2)
   | .infinite c, a =>
     if a < 0 then (.infinite c, some .negative)
-    else
-      let c' := wrap64 (c - a)
-      (.infinite (if c' < 0 then 0 else c'), none)
+    else (.infinite (if wrap64 (c - a) < 0 then 0 else wrap64 (c - a)), none)
   | .pass base h, a =>
     match (base.refund a).2 with
     | some e => (.pass (base.refund a).1 h, some e)
